@@ -115,36 +115,37 @@ Proof.
   all: try (assert (0 <= alpha * (u - c)) by (apply Rmult_le_pos; lra); assert (0 <= (1 - alpha) * (u - a)) by (apply Rmult_le_pos; lra); lra).
 Qed.
 
-(* the step length of an SPG iteration is in [0,1]: non-monotone rule with q <= qMax *)
-Theorem spg_alpha_range_nonmonotone ds sBs q qMax : q <= qMax ->
-  0 <= @spg_alpha R NumR true ds sBs q qMax <= 1.
+(* the clipped step length is in [0,1] for EVERY line-search value (repo commit d722144), hence for both line searches *)
+Lemma clip01_range a : 0 <= @clip01 R NumR a <= 1.
 Proof.
-  intros Hq. unfold spg_alpha. unfold_num. q2r. unfold Rltb.
-  destruct (Rlt_dec 0 sBs) as [Hs|Hs]; [|lra].
-  match goal with |- context [Rlt_dec ?a 1] => destruct (Rlt_dec a 1) as [H1|H1]; [|lra]; split; [|lra] end.
-  unfold nonmonotone_line_search. unfold_num. q2r. cbv zeta.
+  unfold clip01. unfold_num. q2r. unfold Rltb. cbv zeta.
+  destruct (Rlt_dec 0 a); [destruct (Rlt_dec a 1)|destruct (Rlt_dec 0 1)]; lra.
+Qed.
+Theorem spg_alpha_range nm ds sBs q qMax : 0 <= @spg_alpha R NumR nm ds sBs q qMax <= 1.
+Proof.
+  unfold spg_alpha. unfold_num. q2r. unfold Rltb. destruct (Rlt_dec 0 sBs); [apply clip01_range|lra].
+Qed.
+(* so every SPG update is a convex combination of feasible points, in both line-search modes, without any hypothesis *)
+Theorem spg_step_feasible bs xNew p nm ds sBs q qMax : in_box bs xNew -> in_box bs p ->
+  in_box bs (@spg_update R NumR xNew p (@spg_alpha R NumR nm ds sBs q qMax)).
+Proof. intros. apply spg_update_feasible; auto. apply spg_alpha_range. Qed.
+
+(* remark about the UNCLIPPED monotone kernel (the mechanism of the repaired finding F12): d.s = 1, sBs = 1 gives -1 *)
+Lemma monotone_alpha_negative : exists ds sBs q qMax, 0 < sBs /\ q <= qMax /\ @kouri_exact_line_search R NumR ds sBs q qMax 0 < 0.
+Proof.
+  exists 1, 1, 0, 0. split; [lra|]. split; [lra|].
+  unfold kouri_exact_line_search. unfold_num. cbv zeta. lra.
+Qed.
+(* the non-monotone kernel is already non-negative when q <= qMax (q is in the history) *)
+Lemma nonmonotone_kernel_nonneg ds sBs q qMax : 0 < sBs -> q <= qMax -> 0 <= @nonmonotone_line_search R NumR ds sBs q qMax 0.
+Proof.
+  intros Hs Hq. unfold nonmonotone_line_search. unfold_num. q2r. cbv zeta.
   match goal with |- context [sqrt ?e] => set (E := e) end.
   match goal with |- 0 <= (- ?bb + _) / _ => set (b := bb) in * end.
   assert (HE : b * b <= E) by (unfold E; nra).
   assert (0 <= E) by nra. pose proof (sqrt_sqrt E ltac:(lra)) as Hsq. pose proof (sqrt_pos E) as Hp.
   assert (b <= sqrt E) by nra.
   apply Rmult_le_pos; [lra|]. left. apply Rinv_0_lt_compat. lra.
-Qed.
-(* monotone ("Kouri") rule: needs d.s <= 0 *)
-Theorem spg_alpha_range_monotone ds sBs q qMax : ds <= 0 -> 0 <= @spg_alpha R NumR false ds sBs q qMax <= 1.
-Proof.
-  intros Hd. unfold spg_alpha. unfold_num. q2r. unfold Rltb.
-  destruct (Rlt_dec 0 sBs) as [Hs|Hs]; [|lra].
-  match goal with |- context [Rlt_dec ?a 1] => destruct (Rlt_dec a 1) as [H1|H1]; [|lra]; split; [|lra] end.
-  unfold kouri_exact_line_search. unfold_num. cbv zeta. apply Rmult_le_pos; [lra|]. left. apply Rinv_0_lt_compat. lra.
-Qed.
-
-(* without d.s <= 0 the monotone rule yields a negative step length (finding F12): d.s = 1, sBs = 1 gives alpha = -1 *)
-Lemma monotone_alpha_negative : exists ds sBs q qMax, 0 < sBs /\ q <= qMax /\ @spg_alpha R NumR false ds sBs q qMax < 0.
-Proof.
-  exists 1, 1, 0, 0. split; [lra|]. split; [lra|].
-  unfold spg_alpha, kouri_exact_line_search. unfold_num. q2r. cbv zeta. unfold Rltb.
-  destruct (Rlt_dec 0 1); [|lra]. destruct (Rlt_dec (- (1) / 1) 1); lra.
 Qed.
 
 (* ------------------------------------------------------------------ the outer loop, arbitrary oracles *)
